@@ -1,14 +1,21 @@
 //! Thread gating: real threads follow a schedule chosen by the model checker.
 //!
 //! Every hook of the crate (atomic operation, fence, buffer access note, allocator call) first
-//! calls `gate()`. When a schedule is installed, the calling thread blocks until the schedule's
-//! next entry names it, so the execution on real threads is exactly the model's interleaving.
-//! Without a schedule (all sequential pipelines) `gate()` returns at once.
+//! calls a gate. Without a schedule (all sequential pipelines) gates return at once. With one,
+//! a gate that concerns the tracked shared buffer X (an atomic on its count, a fence following
+//! one, an access to its bytes, its reallocation or release) blocks the calling thread until the
+//! schedule's next entry names it; only one thread runs between two such gates, so the real
+//! execution is exactly the model's interleaving and the event log is totally ordered.
 
+use lean_string::verif_hooks::Site;
 use std::cell::Cell;
 use std::sync::{Condvar, Mutex};
+use std::time::Duration;
 
-thread_local! { static TID: Cell<usize> = const { Cell::new(0) }; }
+thread_local! {
+    static TID: Cell<usize> = const { Cell::new(0) };
+    static LAST_RMW_ON_X: Cell<bool> = const { Cell::new(false) };
+}
 pub fn tid() -> usize {
     TID.with(|t| t.get())
 }
@@ -17,53 +24,145 @@ pub fn set_tid(t: usize) {
 }
 
 pub struct Sched {
-    pub schedule: Vec<usize>,
+    pub schedule: Vec<(usize, String)>,
     pub pos: usize,
     pub done: Vec<bool>,
+    pub running: Option<usize>,
     pub free_run: bool,
+    pub desync: bool,
+    /// grants whose hook kind differed from the model's action label
+    pub label_mismatches: usize,
     pub granted: Vec<(usize, String)>,
-    /// schedule entries that could not be honoured because the thread had already finished
-    pub skipped: usize,
 }
 
 static SCHED: Mutex<Option<Sched>> = Mutex::new(None);
 static CV: Condvar = Condvar::new();
+/// the shared buffer the schedule is about: (user address of the block, size)
+static TRACKED: Mutex<Option<(usize, usize)>> = Mutex::new(None);
 
-pub fn install(schedule: Vec<usize>, nthreads: usize) {
-    *SCHED.lock().unwrap() = Some(Sched { schedule, pos: 0, done: vec![false; nthreads + 1], free_run: false, granted: vec![], skipped: 0 });
+pub fn install(schedule: Vec<(usize, String)>, nthreads: usize) {
+    *SCHED.lock().unwrap() = Some(Sched { schedule, pos: 0, done: vec![false; nthreads + 2], running: None, free_run: false, desync: false, label_mismatches: 0, granted: vec![] });
 }
 pub fn uninstall() -> Option<Sched> {
     SCHED.lock().unwrap().take()
 }
+pub fn set_tracked(b: Option<(usize, usize)>) {
+    *TRACKED.lock().unwrap() = b;
+}
+pub fn in_tracked(addr: usize) -> bool {
+    match *TRACKED.lock().unwrap() {
+        Some((u, s)) => addr >= u && addr <= u + s,
+        None => false,
+    }
+}
 
-pub fn gate(what: &str) {
+fn compatible(label: &str, what: &str) -> bool {
+    match label {
+        "rmw+" | "rmw-" | "load" => what == "atomic",
+        "fence" => what == "fence",
+        "read" | "write" => what == "access",
+        "dealloc" => what == "dealloc",
+        "realloc" => what == "realloc",
+        _ => false,
+    }
+}
+
+/// Blocks until it is this thread's turn according to the schedule.
+pub fn turn(what: &str) {
     let me = tid();
     if me == 0 {
         return;
     }
     let mut g = SCHED.lock().unwrap();
+    if g.is_none() {
+        return;
+    }
+    if let Some(s) = g.as_mut() {
+        if s.running == Some(me) {
+            s.running = None;
+            CV.notify_all();
+        }
+    }
     loop {
         let Some(s) = g.as_mut() else { return };
-        if s.free_run {
-            return;
+        while !s.free_run && s.pos < s.schedule.len() && s.done[s.schedule[s.pos].0] {
+            s.pos += 1; // the model let a finished thread move: cannot be honoured
+            s.desync = true;
         }
-        while s.pos < s.schedule.len() && s.done[s.schedule[s.pos]] {
-            s.pos += 1;
-            s.skipped += 1;
-        }
-        if s.pos >= s.schedule.len() {
+        if !s.free_run && s.pos >= s.schedule.len() {
             s.free_run = true;
-            CV.notify_all();
-            return;
         }
-        if s.schedule[s.pos] == me {
-            s.pos += 1;
-            s.granted.push((me, what.to_string()));
-            CV.notify_all();
-            return;
+        if s.running.is_none() {
+            if s.free_run {
+                s.running = Some(me);
+                return;
+            }
+            if s.schedule[s.pos].0 == me {
+                if !compatible(&s.schedule[s.pos].1, what) {
+                    s.label_mismatches += 1;
+                }
+                s.pos += 1;
+                s.running = Some(me);
+                s.granted.push((me, what.to_string()));
+                return;
+            }
         }
-        g = CV.wait(g).unwrap();
+        let (ng, to) = CV.wait_timeout(g, Duration::from_millis(1500)).unwrap();
+        g = ng;
+        if to.timed_out() {
+            if let Some(s) = g.as_mut() {
+                // the schedule cannot be followed (the code's steps differ from the model's)
+                s.desync = true;
+                s.free_run = true;
+                CV.notify_all();
+            }
+        }
     }
+}
+
+/// Scheduling point in front of an atomic operation, fence or buffer access.
+pub fn turn_at(site: Site, addr: usize) {
+    if tid() == 0 {
+        return;
+    }
+    match site {
+        Site::Atomic => {
+            let x = in_tracked(addr);
+            LAST_RMW_ON_X.with(|c| c.set(x));
+            if x {
+                turn("atomic")
+            }
+        }
+        Site::Fence => {
+            if LAST_RMW_ON_X.with(|c| c.get()) {
+                turn("fence")
+            }
+        }
+        Site::Access => {
+            if in_tracked(addr) {
+                turn("access")
+            }
+        }
+    }
+}
+
+/// Scheduling point in front of an allocator call on the block at `addr` (0: a fresh allocation).
+pub fn turn_alloc(what: &str, addr: usize) {
+    if tid() != 0 && addr != 0 && in_tracked(addr) {
+        turn(what)
+    }
+}
+
+/// The calling thread is about to block outside a gate (joining other threads).
+pub fn pause() {
+    let me = tid();
+    let mut g = SCHED.lock().unwrap();
+    if let Some(s) = g.as_mut() {
+        if s.running == Some(me) {
+            s.running = None;
+        }
+    }
+    CV.notify_all();
 }
 
 /// The calling thread has finished its program.
@@ -71,6 +170,9 @@ pub fn finish() {
     let me = tid();
     let mut g = SCHED.lock().unwrap();
     if let Some(s) = g.as_mut() {
+        if s.running == Some(me) {
+            s.running = None;
+        }
         if me < s.done.len() {
             s.done[me] = true;
         }
